@@ -268,58 +268,11 @@ Definition env_in_token (t : str) : bool :=
   else if rx_search rx_env_sub1 t || rx_search rx_env_sub2 t || rx_search rx_env_sub3 t then false
   else negb (rx_search rx_env_alias t).
 
-(* first-match functions for re1 (src_env_re1: anchored, lazy head, dollar, KEY, rest) and
-   re2 (src_env_re2: lazy head, dollar, open brace, KEY, close brace, rest, end anchor);
-   KEY = one or more of [A-Za-z0-9_], or a dollar, or a question mark (greedy name) *)
-Definition key_at (s : str) : option (str * str) :=
-  match s with
-  | [] => None
-  | c :: r => if is_alnum_us c then Some (span is_alnum_us s)
-              else if (c =? 36) || (c =? 63) then Some ([c], r) else None
-  end.
-
-Definition bkey_at (s : str) : option (str * str) :=
-  match s with
-  | [] => None
-  | c :: r =>
-      if is_alnum_us c then
-        let (k, t) := span is_alnum_us s in
-        match strip_prefix [125] t with Some t' => Some (k, t') | None => None end
-      else if (c =? 36) || (c =? 63) then
-        match strip_prefix [125] r with Some t' => Some ([c], t') | None => None end
-      else None
-  end.
-
-Fixpoint find_re1 (s : str) : option (str * str * str) :=
-  match s with
-  | [] => None
-  | c :: r =>
-      match (if c =? 36 then key_at r else None) with
-      | Some (k, t) => Some ([], k, t)
-      | None => match find_re1 r with Some (h, k, t) => Some (c :: h, k, t) | None => None end
-      end
-  end.
-
-Fixpoint find_re2 (s : str) : option (str * str * str) :=
-  match s with
-  | [] => None
-  | c :: r =>
-      match (if c =? 36 then match strip_prefix [123] r with Some r' => bkey_at r' | None => None end else None) with
-      | Some (k, t) => Some ([], k, t)
-      | None => match find_re2 r with Some (h, k, t) => Some (c :: h, k, t) | None => None end
-      end
-  end.
-
-(** [.] does not match a newline and re1 is anchored at both ends: no newline at all *)
-Definition re1_captures (tok : str) : option (str * str * str) :=
-  if contains_char 10 tok then None else find_re1 tok.
-
-(** re2 is anchored at the end only: the leftmost start from which head, key and tail
-    (none of which crosses a newline) reach the end is the start of the last line;
-    whatever precedes it is not part of the match and is DROPPED by the caller *)
-Definition last_line (s : str) : str :=
-  match split_last 10 s with Some (_, b) => b | None => s end.
-Definition re2_captures (tok : str) : option (str * str * str) := find_re2 (last_line tok).
+(** since e586def parameter expansion is ONE left-to-right scan: the value of a reference is
+    appended and never looked at again (no fuel: the scan is structural).  The former loop
+    [while env_in_token { expand_one_env }] and its regex first-match functions live in
+    Historical/ExpandLoop.v. *)
+Definition is_name_start (c : char) : bool := is_alpha c || (c =? 95).
 
 Definition lookup_var (W : World) (key : str) : option str :=
   match env_var W key with
@@ -332,30 +285,51 @@ Definition key_value (W : World) (key : str) : str :=
   else if str_eqb key [36] then z_to_dec (pid W)
   else match lookup_var W key with Some v => v | None => [] end.
 
-Definition expand_one_env (W : World) (tok : str) : str :=
-  match (match re1_captures tok with Some c => Some c | None => re2_captures tok end) with
-  | None => tok
-  | Some (head, key, tail) => head ++ key_value W key ++ tail
+(** the reference at the start of [s], which follows a dollar: key and number of chars spanned *)
+Definition env_ref_at (s : str) : option (str * nat) :=
+  match s with
+  | [] => None
+  | c :: r =>
+      if (c =? 63) || (c =? 36) then Some ([c], 1%nat)
+      else if is_name_start c then
+        let n := fst (span is_alnum_us s) in Some (n, length n)
+      else if c =? 123 then
+        match r with
+        | [] => None
+        | d :: r' =>
+            if ((d =? 63) || (d =? 36)) && starts_with [125] r' then Some ([d], 3%nat)
+            else if is_name_start d then
+              let n := fst (span is_alnum_us r) in
+              if starts_with [125] (snd (span is_alnum_us r)) then Some (n, (length n + 2)%nat) else None
+            else None
+        end
+      else None
   end.
 
-(** [while env_in_token(&_token) { _token = expand_one_env(sh, &_token); }] *)
-Fixpoint expand_env_loop (fuel : nat) (W : World) (t : str) : res str :=
-  match fuel with
-  | O => OutOfFuel
-  | S f => if env_in_token t then expand_env_loop f W (expand_one_env W t) else Ok t
+(** the [while i < chars.len()] loop; [skip] = how many chars the last reference still covers *)
+Fixpoint once_go (W : World) (skip : nat) (t : str) : str :=
+  match t with
+  | [] => []
+  | c :: r =>
+      match skip with
+      | S k => once_go W k r
+      | O =>
+          if c =? 36 then
+            match env_ref_at r with
+            | Some (key, n) => key_value W key ++ once_go W n r
+            | None => 36 :: once_go W 0 r
+            end
+          else c :: once_go W 0 r
+      end
   end.
+Definition expand_env_once (W : World) (t : str) : str := once_go W 0 t.
 
-Definition expand_env_tok (fuel : nat) (W : World) (t : token) : res token :=
+Definition expand_env_tok (W : World) (t : token) : token :=
   match fst t with
-  | TBq | TSq => Ok t
-  | _ => if env_in_token (snd t) then res_map (fun s => (fst t, s)) (expand_env_loop fuel W (snd t)) else Ok t
+  | TBq | TSq => t
+  | _ => if env_in_token (snd t) then (fst t, expand_env_once W (snd t)) else t
   end.
-
-Fixpoint expand_env (fuel : nat) (W : World) (toks : tokens) : res tokens :=
-  match toks with
-  | [] => Ok []
-  | t :: r => bind (expand_env_tok fuel W t) (fun t' => res_map (cons t') (expand_env fuel W r))
-  end.
+Definition expand_env (W : World) (toks : tokens) : tokens := map (expand_env_tok W) toks.
 
 (* ------------------------------------------------------------------ expand_brace *)
 Definition need_expand_brace (s : str) : bool := rx_search rx_need_brace s.
@@ -730,11 +704,11 @@ Definition do_expansion_log (tokenize : str -> tokens) (W : World) (fuel : nat) 
   else
     let t1 := expand_alias tokenize W toks in
     let t2 := expand_home W t1 in
-    bind (expand_env fuel W t2) (fun t3 =>
+    let t3 := expand_env W t2 in
     bind (expand_brace t3) (fun t4 =>
     bind (expand_glob W t4) (fun t5 =>
     bind (do_command_substitution fuel W t5) (fun x =>
-    res_map (fun t7 => (t7, snd x)) (expand_brace_range (fst x)))))).
+    res_map (fun t7 => (t7, snd x)) (expand_brace_range (fst x))))).
 
 Definition do_expansion (tokenize : str -> tokens) (W : World) (fuel : nat) (toks : tokens)
   : res tokens :=
